@@ -15,6 +15,7 @@ import (
 
 	"verifh/mon"
 	"verifh/ref/ec"
+	"verifh/ref/sm2kx"
 	refsm3 "verifh/ref/sm3"
 )
 
@@ -155,28 +156,54 @@ func sm2Ops() []*op {
 		{name: "sm2.kx.init", rule: ruleSM2Nonce, variants: []string{"InitKeyExchange", "InitKeyExchange(sig)"}, prepare: prepSM2KxInit},
 		{name: "sm2.kx.respond", rule: ruleSM2Nonce, variants: []string{"RepondKeyExchange", "RepondKeyExchange(sig)"}, prepare: prepSM2KxRespond},
 		{name: "ecdh.genkey", rule: ruleSM2KeyXor, variants: []string{"P256().GenerateKey"}, prepare: prepECDHGenKey},
-		{name: "sm2.sign.nistp256", rule: ruleNISTNonce, variants: []string{"SignASN1(hash)", "sm2.Sign->(r,s)"}, prepare: prepLegacySign},
-		{name: "sm2.encrypt.nistp256", rule: ruleNISTNonce, variants: []string{"Encrypt(nil)", "Encrypt(compressed)", "EncryptASN1"}, prepare: prepLegacyEncrypt},
+		{name: "sm2.sign.nistp256", rule: ruleNISTNonce,
+			variants: []string{"SignASN1(hash)", "sm2.Sign->(r,s)", "SignASN1(hash)" + curveParams, "sm2.Sign->(r,s)" + curveParams}, prepare: prepLegacySign},
+		{name: "sm2.encrypt.nistp256", rule: ruleNISTNonce, variants: []string{"Encrypt(nil)", "Encrypt(compressed)", "EncryptASN1", "Encrypt(C1C2C3)"}, prepare: prepLegacyEncrypt},
 	}
 }
 
+// hashLens are the digest lengths handed to the hash-signing entry points: the nonce is
+// drawn in the same way whatever the length (longer digests are truncated to the 32 left-most
+// bytes, as documented; shorter ones are used as they are).
+var hashLens = []int{32, 32, 32, 32, 20, 31, 33, 48, 64}
+
 func prepSM2Sign(x *env, r *mon.Rand, variant string) *call {
-	d := randScalar(r, sm2N)
-	hash := r.Bytes(32)
+	return prepSM2SignOn(nil, randScalar(r, sm2N), r, variant)
+}
+
+// prepSM2SignOn draws the per-call inputs of one signing call; the call is made on the kept
+// key object obj (object histories) or, if obj is nil, on a key object built for each run.
+func prepSM2SignOn(obj *sm2.PrivateKey, d *big.Int, r *mon.Rand, variant string) *call {
+	hash := r.Bytes(hashLens[r.Intn(len(hashLens))])
 	msg := r.Bytes(r.Intn(70))
 	var uid []byte
 	if r.Bool() {
 		uid = r.Bytes(r.Range(1, 20))
 	}
-	return sm2SignCall(d, hash, msg, uid, variant)
+	return sm2SignCallOn(obj, d, hash, msg, uid, variant)
 }
 
 func sm2SignCall(d *big.Int, hash, msg, uid []byte, variant string) *call {
+	return sm2SignCallOn(nil, d, hash, msg, uid, variant)
+}
+
+// leftmost32 is the documented digest truncation of the hash-signing entry points.
+func leftmost32(h []byte) []byte {
+	if len(h) > 32 {
+		return h[:32]
+	}
+	return h
+}
+
+func sm2SignCallOn(obj *sm2.PrivateKey, d *big.Int, hash, msg, uid []byte, variant string) *call {
 	c := &call{inputs: fmt.Sprintf("d=%064x hash=%x msg=%x uid=%x", d, hash, msg, uid)}
 	c.run = func(rnd io.Reader) (o outcome) {
-		priv, err := sm2Key(d)
-		if err != nil {
-			panic("c12 harness: " + err.Error())
+		priv := obj
+		if priv == nil {
+			var err error
+			if priv, err = sm2Key(d); err != nil {
+				panic("c12 harness: " + err.Error())
+			}
 		}
 		var sig []byte
 		var rr, ss *big.Int
@@ -219,7 +246,7 @@ func sm2SignCall(d *big.Int, hash, msg, uid []byte, variant string) *call {
 			if ev == nil {
 				ev = refDigest(uid, msg, priv.X, priv.Y)
 			}
-			en := new(big.Int).SetBytes(ev)
+			en := new(big.Int).SetBytes(leftmost32(ev))
 			en.Mod(en, sm2N)
 			return signRejects(sm2N, ec.BaseMul(k).X, en, d, k)
 		}
@@ -243,20 +270,31 @@ func sm2EncOpts(variant string) *sm2.EncrypterOpts {
 }
 
 func prepSM2Encrypt(x *env, r *mon.Rand, variant string) *call {
-	d := randScalar(r, sm2N)
+	return prepSM2EncryptOn(nil, randScalar(r, sm2N), r, variant)
+}
+
+func prepSM2EncryptOn(obj *sm2.PrivateKey, d *big.Int, r *mon.Rand, variant string) *call {
 	n := []int{16, 17, 32, 33, 64, 100, 3}[r.Intn(7)]
 	if variant == "Encrypt(len<=2)" {
 		n = r.Range(1, 2)
 	}
-	return sm2EncryptCall(d, r.Bytes(n), variant)
+	return sm2EncryptCallOn(obj, d, r.Bytes(n), variant)
 }
 
 func sm2EncryptCall(d *big.Int, msg []byte, variant string) *call {
+	return sm2EncryptCallOn(nil, d, msg, variant)
+}
+
+// sm2EncryptCallOn encrypts to &obj.PublicKey of the kept key object (nil: a fresh one per run).
+func sm2EncryptCallOn(obj *sm2.PrivateKey, d *big.Int, msg []byte, variant string) *call {
 	c := &call{inputs: fmt.Sprintf("d=%064x msg=%x", d, msg)}
 	c.run = func(rnd io.Reader) (o outcome) {
-		priv, err := sm2Key(d)
-		if err != nil {
-			panic("c12 harness: " + err.Error())
+		priv := obj
+		if priv == nil {
+			var err error
+			if priv, err = sm2Key(d); err != nil {
+				panic("c12 harness: " + err.Error())
+			}
 		}
 		var ct []byte
 		isASN1 := false
@@ -342,7 +380,8 @@ func prepSM2GenKey(x *env, r *mon.Rand, variant string) *call {
 			return
 		}
 		o.output = fmt.Sprintf("private key d=%x", priv.D)
-		o.out = append(b32(priv.D), append(b32(priv.X), b32(priv.Y)...)...)
+		o.live = func() []byte { return append(b32(priv.D), append(b32(priv.X), b32(priv.Y)...)...) }
+		o.out = o.live()
 		o.recovered = new(big.Int).Set(priv.D)
 		o.match = func(k *big.Int) string { return pointDiff("public key", priv.X, priv.Y, k) }
 		return
@@ -350,67 +389,146 @@ func prepSM2GenKey(x *env, r *mon.Rand, variant string) *call {
 	return c
 }
 
+// kxParties are the constructor arguments of one sm2.KeyExchange object: its owner (static
+// key, identity) and the peer.
 type kxParties struct {
-	dA, dB     *big.Int
-	uidA, uidB []byte
-	keyLen     int
-	sig        bool
+	dOwn, dPeer     *big.Int
+	uidOwn, uidPeer []byte
+	keyLen          int
+	sig             bool
+}
+
+func (p kxParties) String() string {
+	return fmt.Sprintf("dOwn=%064x dPeer=%064x uidOwn=%x uidPeer=%x keyLen=%d confirm=%v", p.dOwn, p.dPeer, p.uidOwn, p.uidPeer, p.keyLen, p.sig)
 }
 
 func newKxParties(r *mon.Rand, variant string) kxParties {
-	p := kxParties{dA: randScalar(r, sm2N), dB: randScalar(r, sm2N), keyLen: r.Range(1, 48), sig: strings.HasSuffix(variant, "(sig)")}
+	p := kxParties{dOwn: randScalar(r, sm2N), dPeer: randScalar(r, sm2N), keyLen: r.Range(1, 48), sig: strings.HasSuffix(variant, "(sig)")}
 	if r.Bool() {
-		p.uidA, p.uidB = r.Bytes(r.Range(1, 16)), r.Bytes(r.Range(1, 16))
+		p.uidOwn, p.uidPeer = r.Bytes(r.Range(1, 16)), r.Bytes(r.Range(1, 16))
 	}
 	return p
 }
 
+func effUID(u []byte) []byte {
+	if len(u) == 0 {
+		return defaultUID
+	}
+	return u
+}
+
+// sm2KxObj is one sm2.KeyExchange object a caller keeps.
+type sm2KxObj struct {
+	p         kxParties
+	ke        *sm2.KeyExchange
+	destroyed bool             // Destroy() wiped the identity digests: later keys are not the standard's any more
+	latePeer  *ecdsa.PublicKey // constructed without the peer's parameters (TLCP style): SetPeerParameters still to be called
+}
+
+// newSM2KxObj constructs the object; late: without peer key and identity, which are supplied by
+// SetPeerParameters (needPeer) only when a step needs them - InitKeyExchange does not.
+func newSM2KxObj(p kxParties, late bool) *sm2KxObj {
+	own, err := sm2Key(p.dOwn)
+	if err != nil {
+		panic("c12 harness: " + err.Error())
+	}
+	peer, err := sm2Key(p.dPeer)
+	if err != nil {
+		panic("c12 harness: " + err.Error())
+	}
+	ko := &sm2KxObj{p: p}
+	if late {
+		ko.latePeer = &peer.PublicKey
+		ko.ke, err = sm2.NewKeyExchange(own, nil, p.uidOwn, nil, p.keyLen, p.sig)
+	} else {
+		ko.ke, err = sm2.NewKeyExchange(own, &peer.PublicKey, p.uidOwn, p.uidPeer, p.keyLen, p.sig)
+	}
+	if err != nil {
+		panic("c12 harness: " + err.Error())
+	}
+	return ko
+}
+
+func (ko *sm2KxObj) needPeer() {
+	if ko.latePeer != nil {
+		if err := ko.ke.SetPeerParameters(ko.latePeer, ko.p.uidPeer); err != nil {
+			panic("c12 harness: " + err.Error())
+		}
+		ko.latePeer = nil
+	}
+}
+
+func ecPub(p ec.Point) *ecdsa.PublicKey {
+	return &ecdsa.PublicKey{Curve: sm2.P256(), X: new(big.Int).Set(p.X), Y: new(big.Int).Set(p.Y)}
+}
+
 func prepSM2KxInit(x *env, r *mon.Rand, variant string) *call {
-	p := newKxParties(r, variant)
-	c := &call{inputs: fmt.Sprintf("dA=%064x dB=%064x uidA=%x uidB=%x keyLen=%d", p.dA, p.dB, p.uidA, p.uidB, p.keyLen)}
+	return sm2KxInitCall(nil, newKxParties(r, variant), randScalar(r, sm2N))
+}
+
+// sm2KxInitCall is InitKeyExchange on the kept object obj (nil: a new object per run). rPeer is
+// the ephemeral scalar of the honest responder the follow-up oracle plays.
+func sm2KxInitCall(obj *sm2KxObj, p kxParties, rPeer *big.Int) *call {
+	c := &call{inputs: p.String()}
 	c.run = func(rnd io.Reader) (o outcome) {
-		a, err := sm2Key(p.dA)
-		if err != nil {
-			panic("c12 harness: " + err.Error())
+		ko := obj
+		if ko == nil {
+			ko = newSM2KxObj(p, false)
 		}
-		b, err := sm2Key(p.dB)
-		if err != nil {
-			panic("c12 harness: " + err.Error())
-		}
-		ke, err := sm2.NewKeyExchange(a, &b.PublicKey, p.uidA, p.uidB, p.keyLen, p.sig)
-		if err != nil {
-			panic("c12 harness: " + err.Error())
-		}
-		R, err := ke.InitKeyExchange(rnd)
+		R, err := ko.ke.InitKeyExchange(rnd)
 		o.err = err
 		if o.output = pubOutput(R); o.output == "" {
 			return
 		}
-		o.out = append(b32(R.X), b32(R.Y)...)
-		o.match = func(k *big.Int) string { return pointDiff("RA", R.X, R.Y, k) }
+		// R points into the object: copy what was returned by THIS call
+		rx, ry := new(big.Int).Set(R.X), new(big.Int).Set(R.Y)
+		o.out = append(b32(rx), b32(ry)...)
+		o.match = func(k *big.Int) string { return pointDiff("RA", rx, ry, k) }
+		o.follow = func(k *big.Int) string { // steps A4-A10 against the honest responder of the reference model
+			if ko.destroyed {
+				return ""
+			}
+			ref, err := sm2kx.Run(sm2kx.Session{DA: p.dOwn, DB: p.dPeer, RA: k, RB: rPeer, IDA: effUID(p.uidOwn), IDB: effUID(p.uidPeer), KLen: p.keyLen})
+			if err != nil || ref.Infinity {
+				return ""
+			}
+			var sB []byte
+			if p.sig {
+				sB = ref.SB
+			}
+			ko.needPeer()
+			key, sA, err := ko.ke.ConfirmResponder(ecPub(ref.EB), sB)
+			if err != nil {
+				return fmt.Sprintf("ConfirmResponder refuses the honest responder's answer (RB=[%x]G, SB) to RA=[k]G: %v - the object does not continue with the scalar it sampled", rPeer, err)
+			}
+			if !bytes.Equal(key, ref.K) {
+				return fmt.Sprintf("ConfirmResponder derives key %x, GB/T 32918.3 with rA=k gives %x - the object does not continue with the scalar it sampled", key, ref.K)
+			}
+			if p.sig && !bytes.Equal(sA, ref.SA) {
+				return fmt.Sprintf("ConfirmResponder returns SA=%x, GB/T 32918.3 with rA=k gives %x", sA, ref.SA)
+			}
+			return ""
+		}
 		return
 	}
 	return c
 }
 
 func prepSM2KxRespond(x *env, r *mon.Rand, variant string) *call {
-	p := newKxParties(r, variant)
-	rA := ec.BaseMul(randScalar(r, sm2N)) // the initiator's ephemeral public key
-	c := &call{inputs: fmt.Sprintf("dA=%064x dB=%064x uidA=%x uidB=%x keyLen=%d RA=%x", p.dA, p.dB, p.uidA, p.uidB, p.keyLen, rA.Marshal())}
+	return sm2KxRespondCall(nil, newKxParties(r, variant), randScalar(r, sm2N))
+}
+
+// sm2KxRespondCall is RepondKeyExchange(RA = [rPeer]G) on the kept object obj (nil: a new one per run).
+func sm2KxRespondCall(obj *sm2KxObj, p kxParties, rPeer *big.Int) *call {
+	c := &call{inputs: fmt.Sprintf("%s RA=[%064x]G", p, rPeer)}
+	rA := ec.BaseMul(rPeer) // the initiator's ephemeral public key
 	c.run = func(rnd io.Reader) (o outcome) {
-		a, err := sm2Key(p.dA)
-		if err != nil {
-			panic("c12 harness: " + err.Error())
+		ko := obj
+		if ko == nil {
+			ko = newSM2KxObj(p, false)
 		}
-		b, err := sm2Key(p.dB)
-		if err != nil {
-			panic("c12 harness: " + err.Error())
-		}
-		ke, err := sm2.NewKeyExchange(b, &a.PublicKey, p.uidB, p.uidA, p.keyLen, p.sig)
-		if err != nil {
-			panic("c12 harness: " + err.Error())
-		}
-		R, s2, err := ke.RepondKeyExchange(rnd, &ecdsa.PublicKey{Curve: sm2.P256(), X: rA.X, Y: rA.Y})
+		ko.needPeer()
+		R, s2, err := ko.ke.RepondKeyExchange(rnd, ecPub(rA))
 		o.err = err
 		o.output = pubOutput(R)
 		if len(s2) > 0 {
@@ -419,14 +537,41 @@ func prepSM2KxRespond(x *env, r *mon.Rand, variant string) *call {
 		if R == nil || R.X == nil || o.output == "" {
 			return
 		}
-		o.out = append(append(b32(R.X), b32(R.Y)...), s2...)
-		o.match = func(k *big.Int) string { return pointDiff("RB", R.X, R.Y, k) }
+		rx, ry := new(big.Int).Set(R.X), new(big.Int).Set(R.Y)
+		s2 = append([]byte{}, s2...)
+		o.out = append(append(b32(rx), b32(ry)...), s2...)
+		o.match = func(k *big.Int) string { return pointDiff("RB", rx, ry, k) }
+		o.follow = func(k *big.Int) string { // SB and step B10 against the honest initiator of the reference model
+			if ko.destroyed {
+				return ""
+			}
+			ref, err := sm2kx.Run(sm2kx.Session{DA: p.dPeer, DB: p.dOwn, RA: rPeer, RB: k, IDA: effUID(p.uidPeer), IDB: effUID(p.uidOwn), KLen: p.keyLen})
+			if err != nil || ref.Infinity {
+				return ""
+			}
+			var s1 []byte
+			if p.sig {
+				if !bytes.Equal(s2, ref.SB) {
+					return fmt.Sprintf("confirmation SB=%x, GB/T 32918.3 with rB=k gives %x - the shared point was not computed with the sampled scalar", s2, ref.SB)
+				}
+				s1 = ref.SA
+			}
+			key, err := ko.ke.ConfirmInitiator(s1)
+			if err != nil {
+				return fmt.Sprintf("ConfirmInitiator refuses the honest initiator's confirmation for RB=[k]G: %v", err)
+			}
+			if !bytes.Equal(key, ref.K) {
+				return fmt.Sprintf("ConfirmInitiator derives key %x, GB/T 32918.3 with rB=k gives %x - the object does not continue with the scalar it sampled", key, ref.K)
+			}
+			return ""
+		}
 		return
 	}
 	return c
 }
 
 func prepECDHGenKey(x *env, r *mon.Rand, variant string) *call {
+	dPeer, dStatic, rPeer := randScalar(r, sm2N), randScalar(r, sm2N), randScalar(r, sm2N)
 	c := &call{inputs: "-"}
 	c.run = func(rnd io.Reader) (o outcome) {
 		key, err := ecdh.P256().GenerateKey(rnd)
@@ -434,10 +579,11 @@ func prepECDHGenKey(x *env, r *mon.Rand, variant string) *call {
 		if key == nil {
 			return
 		}
-		kb := key.Bytes()
+		kb := append([]byte{}, key.Bytes()...)
 		o.output = fmt.Sprintf("private key %x", kb)
-		pub := key.PublicKey().Bytes()
-		o.out = append(append([]byte{}, kb...), pub...)
+		pub := append([]byte{}, key.PublicKey().Bytes()...)
+		o.live = func() []byte { return append(append([]byte{}, key.Bytes()...), key.PublicKey().Bytes()...) }
+		o.out = o.live()
 		if len(kb) != 32 {
 			o.match = func(*big.Int) string { return fmt.Sprintf("private key has %d bytes", len(kb)) }
 			return
@@ -447,6 +593,40 @@ func prepECDHGenKey(x *env, r *mon.Rand, variant string) *call {
 			p := ec.BaseMul(k)
 			return c1Diff(pub, p.X, p.Y)
 		}
+		o.follow = func(k *big.Int) string { // the key object carries the sampled scalar into a Diffie-Hellman
+			q := ec.BaseMul(dPeer)
+			peer, err := ecdh.P256().NewPublicKey(q.Marshal())
+			if err != nil {
+				panic("c12 harness: " + err.Error())
+			}
+			want, err := sm2kx.ECDH(k, q)
+			if err != nil {
+				return ""
+			}
+			got, err := key.ECDH(peer)
+			if err != nil || !bytes.Equal(got, want) {
+				return fmt.Sprintf("ECDH of the generated key with [%x]G gives %x (err=%v), the sampled scalar gives %x", dPeer, got, err, want)
+			}
+			// and as the ephemeral key of an SM2 key agreement (static key dStatic; peer: static [dPeer]G, ephemeral [rPeer]G)
+			static, err := ecdh.P256().NewPrivateKey(b32(dStatic))
+			if err != nil {
+				panic("c12 harness: " + err.Error())
+			}
+			rq := ec.BaseMul(rPeer)
+			ePeer, err := ecdh.P256().NewPublicKey(rq.Marshal())
+			if err != nil {
+				panic("c12 harness: " + err.Error())
+			}
+			v, err := sm2kx.SharedPoint(dStatic, k, ec.BaseMul(k), q, rq)
+			if err != nil {
+				return ""
+			}
+			uv, err := static.SM2MQV(key, peer, ePeer)
+			if err != nil || !bytes.Equal(uv.Bytes(), v.Marshal()) {
+				return fmt.Sprintf("SM2MQV with the generated key as ephemeral key gives %x (err=%v), GB/T 32918.3 with r = sampled scalar gives %x", uv.Bytes(), err, v.Marshal())
+			}
+			return ""
+		}
 		return
 	}
 	return c
@@ -454,25 +634,46 @@ func prepECDHGenKey(x *env, r *mon.Rand, variant string) *call {
 
 // --- SM2 algorithms over NIST P-256: the math/big path of sm2_legacy.go (randFieldElement) ---
 
-func nistKey(d *big.Int) *sm2.PrivateKey {
+// curveParams marks the variants whose key names its curve by the generic *elliptic.CurveParams
+// of P-256 instead of elliptic.P256(): same group, but no Inverse method, so that sm2.signLegacy
+// takes its own fermatInverse instead of the curve's (the only variants that can run under the
+// purego tag, see pureGo).
+const curveParams = "/CurveParams"
+
+func nistKey(d *big.Int) *sm2.PrivateKey { return nistKeyOn(d, false) }
+
+func nistKeyOn(d *big.Int, generic bool) *sm2.PrivateKey {
 	priv := new(sm2.PrivateKey)
 	priv.Curve = elliptic.P256()
+	if generic {
+		priv.Curve = elliptic.P256().Params()
+	}
 	priv.D = new(big.Int).Set(d)
 	priv.X, priv.Y = elliptic.P256().ScalarBaseMult(b32(d))
 	return priv
 }
 
 func prepLegacySign(x *env, r *mon.Rand, variant string) *call {
-	d := randScalar(r, nistN)
-	return legacySignCall(d, r.Bytes(32), variant)
+	return prepLegacySignOn(nil, randScalar(r, nistN), r, variant)
+}
+
+func prepLegacySignOn(obj *sm2.PrivateKey, d *big.Int, r *mon.Rand, variant string) *call {
+	return legacySignCallOn(obj, d, r.Bytes(hashLens[r.Intn(len(hashLens))]), variant)
 }
 
 func legacySignCall(d *big.Int, hash []byte, variant string) *call {
+	return legacySignCallOn(nil, d, hash, variant)
+}
+
+func legacySignCallOn(obj *sm2.PrivateKey, d *big.Int, hash []byte, variant string) *call {
 	c := &call{inputs: fmt.Sprintf("curve=P-256 d=%064x hash=%x", d, hash)}
 	c.run = func(rnd io.Reader) (o outcome) {
-		priv := nistKey(d)
+		priv := obj
+		if priv == nil {
+			priv = nistKeyOn(d, strings.HasSuffix(variant, curveParams))
+		}
 		var rr, ss *big.Int
-		if variant == "SignASN1(hash)" {
+		if strings.HasPrefix(variant, "SignASN1(hash)") {
 			var sig []byte
 			sig, o.err = sm2.SignASN1(rnd, priv, hash, nil)
 			if len(sig) == 0 {
@@ -496,7 +697,7 @@ func legacySignCall(d *big.Int, hash []byte, variant string) *call {
 		o.recovered = recoverK(nistN, rr, ss, d)
 		o.reject = func(k *big.Int) bool {
 			x1, _ := elliptic.P256().ScalarBaseMult(b32(k))
-			e := new(big.Int).SetBytes(hash)
+			e := new(big.Int).SetBytes(leftmost32(hash))
 			return signRejects(nistN, x1, e.Mod(e, nistN), d, k)
 		}
 		return
@@ -505,11 +706,26 @@ func legacySignCall(d *big.Int, hash []byte, variant string) *call {
 }
 
 func prepLegacyEncrypt(x *env, r *mon.Rand, variant string) *call {
-	d := randScalar(r, nistN)
-	msg := r.Bytes([]int{16, 33, 64}[r.Intn(3)])
+	return prepLegacyEncryptOn(nil, randScalar(r, nistN), r, variant)
+}
+
+func prepLegacyEncryptOn(obj *sm2.PrivateKey, d *big.Int, r *mon.Rand, variant string) *call {
+	return legacyEncryptCallOn(obj, d, r.Bytes([]int{16, 33, 64}[r.Intn(3)]), variant)
+}
+
+// nistShared is (x2 || y2) of [k]P on NIST P-256 (crypto/elliptic is the trusted reference there).
+func nistShared(k *big.Int, px, py *big.Int) []byte {
+	x2, y2 := elliptic.P256().ScalarMult(px, py, b32(k))
+	return append(b32(x2), b32(y2)...)
+}
+
+func legacyEncryptCallOn(obj *sm2.PrivateKey, d *big.Int, msg []byte, variant string) *call {
 	c := &call{inputs: fmt.Sprintf("curve=P-256 d=%064x msg=%x", d, msg)}
 	c.run = func(rnd io.Reader) (o outcome) {
-		priv := nistKey(d)
+		priv := obj
+		if priv == nil {
+			priv = nistKey(d)
+		}
 		var ct []byte
 		if variant == "EncryptASN1" {
 			ct, o.err = sm2.EncryptASN1(rnd, &priv.PublicKey, msg)
@@ -534,6 +750,45 @@ func prepLegacyEncrypt(x *env, r *mon.Rand, variant string) *call {
 				return ""
 			}
 			return c1Diff(ct, px, py)
+		}
+		o.reject = func(k *big.Int) bool { // A5: t = KDF(x2 || y2, klen) all zero -> back to A1
+			return allZero(refsm3.KDF(nistShared(k, priv.X, priv.Y), len(msg)))
+		}
+		o.full = func(k *big.Int) string { // the whole ciphertext as GB/T 32918.4 6.1 defines it for nonce k
+			z := nistShared(k, priv.X, priv.Y)
+			c2 := refsm3.KDF(z, len(msg))
+			for i := range c2 {
+				c2[i] ^= msg[i]
+			}
+			c3 := refsm3.SumParts(z[:32], msg, z[32:])
+			var gotC2, gotC3 []byte
+			if variant == "EncryptASN1" {
+				var v struct {
+					X, Y   *big.Int
+					C3, C2 []byte
+				}
+				if _, err := asn1.Unmarshal(ct, &v); err != nil {
+					return "ASN.1 ciphertext does not parse: " + err.Error()
+				}
+				gotC2, gotC3 = v.C2, v.C3
+			} else {
+				n1 := 65
+				if ct[0] == 2 || ct[0] == 3 {
+					n1 = 33
+				}
+				if len(ct) != n1+32+len(msg) {
+					return fmt.Sprintf("ciphertext has %d bytes, want %d", len(ct), n1+32+len(msg))
+				}
+				if variant == "Encrypt(C1C2C3)" {
+					gotC2, gotC3 = ct[n1:n1+len(msg)], ct[n1+len(msg):]
+				} else {
+					gotC3, gotC2 = ct[n1:n1+32], ct[n1+32:]
+				}
+			}
+			if !bytes.Equal(gotC2, c2) || !bytes.Equal(gotC3, c3) {
+				return fmt.Sprintf("C2=%x C3=%x but M xor KDF([k]P_B)=%x and SM3(x2||M||y2)=%x: the ciphertext does not decrypt", gotC2, gotC3, c2, c3)
+			}
+			return ""
 		}
 		return
 	}
